@@ -326,6 +326,16 @@ fn lst_plans(thorough: bool) -> Vec<Plan> {
             for e in [m.saturating_sub(1), m, m + 1] {
                 a.push(stake_to(&u(2), 100, None, None, Some(e)));
             }
+            // callbacks of somebody else's packets (same sequence number, another channel whose id is a near
+            // miss of the configured one) must not touch the contract's own transfers
+            if s.g.dev < o.max_dev + 1 {
+                for seq in s.w.ibc.flight.keys().take(2) {
+                    for ch in [format!("{SIM_CHANNEL}1"), "channel-77".to_string()] {
+                        a.push(Act::Sudo { msg: SudoMsg::IBCLifecycleComplete(IBCLifecycleComplete::IBCTimeout { channel: ch.clone(), sequence: *seq }) });
+                        a.push(Act::Sudo { msg: SudoMsg::IBCLifecycleComplete(IBCLifecycleComplete::IBCAck { channel: ch, sequence: *seq, ack: "{\"error\":\"x\"}".into(), success: false }) });
+                    }
+                }
+            }
             a
         });
         let mut sc = mk(&format!("lst-{}", k.name), vec!["C03"], seeds, menu);
@@ -412,6 +422,7 @@ fn wd_plans(thorough: bool) -> Vec<Plan> {
     o.deliver = vec![Rel::Exact, Rel::Minus1, Rel::Half, Rel::Plus5, Rel::One];
     o.deliver_dev = false;
     o.withdraw_all_pairs = true;
+    o.funded_variants = true;
     o.withdrawers = vec![u(1), u(2), u(3), p20("u4"), p20("x"), rq(1), rq(2)];
     o.holds = false;
     o.max_dev = 0;
@@ -488,6 +499,7 @@ fn life_plans(thorough: bool) -> Vec<Plan> {
     o.rewards = vec![];
     o.unstake = vec![Frac::Fixed(20)];
     o.unstakers = vec![u(1), u(2)];
+    o.funded_variants = true;
     o.time_boundaries = true;
     o.submitters = vec![u(1), adm(), p20("x"), contract_addr()];
     o.holds = false;
@@ -682,6 +694,10 @@ fn ibc_plans(thorough: bool) -> Vec<Plan> {
             let mut strays: Vec<(String, u64)> = vec![("channel-77".into(), 1), (SIM_CHANNEL.into(), 999)];
             if let Some(k0) = known.first() {
                 strays.push(("channel-77".into(), *k0));
+                // channel ids that are near misses of the configured one: an extension, a prefix, another spelling
+                for ch in [format!("{SIM_CHANNEL}1"), format!("{SIM_CHANNEL}/x"), SIM_CHANNEL[..SIM_CHANNEL.len() - 1].to_string(), SIM_CHANNEL.to_uppercase(), format!(" {SIM_CHANNEL}"), format!("channel-0{}", &SIM_CHANNEL["channel-".len()..])] {
+                    strays.push((ch, *k0));
+                }
             }
             if s.w.ibc.next_seq > 1 && !known.contains(&1) {
                 strays.push((SIM_CHANNEL.into(), 1));
@@ -692,6 +708,9 @@ fn ibc_plans(thorough: bool) -> Vec<Plan> {
                 a.push(Act::Sudo { msg: SudoMsg::IBCLifecycleComplete(IBCLifecycleComplete::IBCTimeout { channel: ch, sequence: seq }) });
             }
             // recoveries
+            if s.w.bal(&p20("x"), &sd()) >= 1 && s.refundable().next().is_some() {
+                a.push(exec(&p20("x"), ExecuteMsg::RecoverPendingIbcTransfers { paginated: None, selected_packets: None, receiver: None }, vec![(sd(), 1)]));
+            }
             for (pg, rc) in [
                 (None, None),
                 (Some(true), None),
